@@ -297,7 +297,8 @@ def run_job(job, rec):
                 cp_idx = {len(p["theta_m"]) + a for a, _ in _cpp(p["spec"], n, d, x)} | {len(p["theta_m"]) + a + 1 for a, _ in _cpp(p["spec"], n, d, x)}
                 if k0 in cp_idx:
                     continue
-                theta_all[k0] += float(rng.uniform(0.2, 0.6)) * (1 if k0 >= len(p["theta_m"]) else p["y_scale"])
+                user_shape_par = p["mean"] in ("UserDecay", "UserBump") and k0 == 1       # (a rate / width: of order one whatever the units of y)
+                theta_all[k0] += float(rng.uniform(0.2, 0.6)) * (1 if (k0 >= len(p["theta_m"]) or user_shape_par) else p["y_scale"])
                 tm2, tc2 = theta_all[: len(p["theta_m"])].copy(), theta_all[len(p["theta_m"]):].copy()
                 r = guarded(gp.set_hyperparameters, theta_all)
                 rec.count("hyperparameter_updates")
